@@ -292,7 +292,7 @@ impl<D: DataMut> ReaderFrom for ScalarZnx<D> {
         let new_cols: usize = reader.read_u64::<LittleEndian>()? as usize;
         let len: usize = reader.read_u64::<LittleEndian>()? as usize;
 
-        let expected_len: usize = new_n * new_cols * size_of::<i64>();
+        let expected_len: usize = crate::layouts::serialization::checked_coeff_bytes_or_err("ScalarZnx", &[new_n, new_cols])?;
         if expected_len != len {
             return Err(std::io::Error::new(
                 std::io::ErrorKind::InvalidData,
